@@ -1360,3 +1360,102 @@ package decimal128
 //@ holds (isnan(d) || isinf(d) || (!special(d) && coef(d) == 0) || (!special(d) && coef(d) != 0))
 //@   && !(isnan(d) && isinf(d)) && (special(d) <==> (isnan(d) || isinf(d)))
 //@ props C15
+
+// ---------------------------------------------------------------------------
+// convert.go: machine-integer conversions (C10). V: exact magnitude of d; T: its
+// integer part (any integer with T <= V < T + 1, i.e. floor(V); unique).
+// ---------------------------------------------------------------------------
+
+//@ func FromInt64
+//@ returns (r)
+//@ ensures !special(r) && !isnan(r) && bexp(r) == ite(i == 0, 0, 6176) && sign(r) == (i < 0) && coef(r) == ite(i < 0, 0 - i, i)
+//@ waive overflow at "i *= -1": -MinInt64 wraps to MinInt64, and uint64(MinInt64) = 2^63 is its magnitude
+//@ props C10 C19 C20
+
+//@ func FromInt32
+//@ returns (r)
+//@ ensures !special(r) && bexp(r) == ite(i == 0, 0, 6176) && sign(r) == (i < 0) && coef(r) == ite(i < 0, 0 - i, i)
+//@ props C10 C19 C20
+
+//@ func FromUint64
+//@ returns (r)
+//@ ensures !special(r) && bexp(r) == ite(i == 0, 0, 6176) && !sign(r) && coef(r) == i
+//@ props C10 C19 C20
+
+//@ func FromUint32
+//@ returns (r)
+//@ ensures !special(r) && bexp(r) == ite(i == 0, 0, 6176) && !sign(r) && coef(r) == i
+//@ props C10 C19 C20
+
+
+//@ func Decimal.Int64
+//@ uses rssteps=1 rsmono=0,1,36
+//@ returns (r, ok)
+//@ logical V real, T int
+//@ requires !special(d) ==> V >= 0 && rs(V, bexp(d)) == coef(d) && T >= 0 && T <= rs(V, 6176) && rs(V, 6176) < T + 1
+//@ panics isnan(d)
+//@ ensures isinf(d) ==> !ok && r == ite(sign(d), 0 - 9223372036854775808, 9223372036854775807)
+//@ ensures !special(d) && sign(d) && T <= 9223372036854775808 ==> ok && r == 0 - T
+//@ ensures !special(d) && sign(d) && T > 9223372036854775808 ==> !ok && r == 0 - 9223372036854775808
+//@ ensures !special(d) && !sign(d) && T <= 9223372036854775807 ==> ok && r == T
+//@ ensures !special(d) && !sign(d) && T > 9223372036854775807 ==> !ok && r == 9223372036854775807
+//@ waive convrange at "i := int64(sig[0])": the magnitude 2^63 of the most negative value wraps to it
+//@ waive overflow at "i *= -1": negating the most negative value wraps to itself, which is the wanted result
+//@ loop 1: invariant u128(sig) <= rs(V, exp + 6176) && rs(V, exp + 6176) < u128(sig) + 1 && exp <= 6200 && exp >= 0 - 35 && u128(sig) <= M && (exp > 0 ==> rs(V, exp + 6176) == u128(sig))
+//@ loop 1: decreases 0 - exp
+//@ loop 2: invariant exp >= 0 && exp <= 6200 && ((rs(V, exp + 6176) == u128(sig) && u128(sig) <= M) || (u128(sig) <= rs(V, 6176) && rs(V, 6176) < u128(sig) + 1 && exp == 0))
+//@ loop 2: decreases exp
+//@ props C10 C19 C20
+
+//@ func Decimal.Int32
+//@ uses rssteps=1 rsmono=0,1,36
+//@ returns (r, ok)
+//@ logical V real, T int
+//@ requires !special(d) ==> V >= 0 && rs(V, bexp(d)) == coef(d) && T >= 0 && T <= rs(V, 6176) && rs(V, 6176) < T + 1
+//@ panics isnan(d)
+//@ ensures isinf(d) ==> !ok && r == ite(sign(d), 0 - 2147483648, 2147483647)
+//@ ensures !special(d) && sign(d) && T <= 2147483648 ==> ok && r == 0 - T
+//@ ensures !special(d) && sign(d) && T > 2147483648 ==> !ok && r == 0 - 2147483648
+//@ ensures !special(d) && !sign(d) && T <= 2147483647 ==> ok && r == T
+//@ ensures !special(d) && !sign(d) && T > 2147483647 ==> !ok && r == 2147483647
+//@ waive convrange at "i := int32(sig[0])": the magnitude 2^31 of the most negative value wraps to it
+//@ waive overflow at "i *= -1": negating the most negative value wraps to itself, which is the wanted result
+//@ loop 1: invariant u128(sig) <= rs(V, exp + 6176) && rs(V, exp + 6176) < u128(sig) + 1 && exp <= 6200 && exp >= 0 - 35 && u128(sig) <= M && (exp > 0 ==> rs(V, exp + 6176) == u128(sig))
+//@ loop 1: decreases 0 - exp
+//@ loop 2: invariant exp >= 0 && exp <= 6200 && ((rs(V, exp + 6176) == u128(sig) && u128(sig) <= M) || (u128(sig) <= rs(V, 6176) && rs(V, 6176) < u128(sig) + 1 && exp == 0))
+//@ loop 2: decreases exp
+//@ props C10 C19 C20
+
+//@ func Decimal.Uint64
+//@ uses rssteps=1 rsmono=0,1,36
+//@ returns (r, ok)
+//@ logical V real, T int
+//@ requires !special(d) ==> V >= 0 && rs(V, bexp(d)) == coef(d) && T >= 0 && T <= rs(V, 6176) && rs(V, 6176) < T + 1
+//@ panics isnan(d)
+//@ ensures isinf(d) ==> !ok && r == ite(sign(d), 0, 18446744073709551615)
+//@ ensures !special(d) && sign(d) && T == 0 ==> ok && r == 0
+//@ ensures !special(d) && sign(d) && T > 0 ==> !ok && r == 0
+//@ ensures !special(d) && !sign(d) && T <= 18446744073709551615 ==> ok && r == T
+//@ ensures !special(d) && !sign(d) && T > 18446744073709551615 ==> !ok && r == 18446744073709551615
+//@ loop 1: invariant u128(sig) <= rs(V, exp + 6176) && rs(V, exp + 6176) < u128(sig) + 1 && exp <= 6200 && exp >= 0 - 35 && u128(sig) <= M && (exp > 0 ==> rs(V, exp + 6176) == u128(sig))
+//@ loop 1: decreases 0 - exp
+//@ loop 2: invariant exp >= 0 && exp <= 6200 && ((rs(V, exp + 6176) == u128(sig) && u128(sig) <= M) || (u128(sig) <= rs(V, 6176) && rs(V, 6176) < u128(sig) + 1 && exp == 0))
+//@ loop 2: decreases exp
+//@ props C10 C19 C20
+
+//@ func Decimal.Uint32
+//@ uses rssteps=1 rsmono=0,1,36
+//@ returns (r, ok)
+//@ logical V real, T int
+//@ requires !special(d) ==> V >= 0 && rs(V, bexp(d)) == coef(d) && T >= 0 && T <= rs(V, 6176) && rs(V, 6176) < T + 1
+//@ panics isnan(d)
+//@ ensures isinf(d) ==> !ok && r == ite(sign(d), 0, 4294967295)
+//@ ensures !special(d) && sign(d) && T == 0 ==> ok && r == 0
+//@ ensures !special(d) && sign(d) && T > 0 ==> !ok && r == 0
+//@ ensures !special(d) && !sign(d) && T <= 4294967295 ==> ok && r == T
+//@ ensures !special(d) && !sign(d) && T > 4294967295 ==> !ok && r == 4294967295
+//@ loop 1: invariant u128(sig) <= rs(V, exp + 6176) && rs(V, exp + 6176) < u128(sig) + 1 && exp <= 6200 && exp >= 0 - 35 && u128(sig) <= M && (exp > 0 ==> rs(V, exp + 6176) == u128(sig))
+//@ loop 1: decreases 0 - exp
+//@ loop 2: invariant exp >= 0 && exp <= 6200 && ((rs(V, exp + 6176) == u128(sig) && u128(sig) <= M) || (u128(sig) <= rs(V, 6176) && rs(V, 6176) < u128(sig) + 1 && exp == 0))
+//@ loop 2: decreases exp
+//@ props C10 C19 C20
